@@ -808,6 +808,7 @@ class X12ContextReader(object):
         """
         cur_tree = None
         cur_data_node = None
+        cur_map = None
         for seg in self.src:
             #find node
             orig_node = self.x12_map_node
@@ -860,6 +861,10 @@ class X12ContextReader(object):
                         self._reset_counter_to_isa_counts()
                     #self._reset_gs_counts(cur_map)
                     self._reset_counter_to_gs_counts()
+                    if cur_map is None:
+                        # GS01/GS08 only select the control map itself: there is no transaction map
+                        raise pyx12.errors.EngineError("Map not found.  icvn=%s, fic=%s, vriic=%s" %
+                                                       (icvn, fic, vriic))
                     tpath = '/ISA_LOOP/GS_LOOP/GS'
                     self.x12_map_node = cur_map.getnodebypath(tpath)
                     #self.walker.forceWalkCounterToLoopStart('/ISA_LOOP/GS_LOOP', '/ISA_LOOP/GS_LOOP/GS')
